@@ -174,6 +174,33 @@ for sym4, expr4 in ang4.items():
         two_resonance_frames += 1
 assert two_resonance_frames == 2, two_resonance_frames
 
+# --- Euler angles of the Wigner rotation (axis-angle alignment): compute_wigner_angles reads them off the
+# entries of ONE matrix W = compute_wigner_rotation_matrix(...); serialise the three trees over symbols
+# m<i><j> = W[:, i, j] (i, j in 1..3 = x, y, z) and check structurally that W is that matrix
+from ampform.kinematics.angles import compute_wigner_angles, compute_wigner_rotation_matrix  # noqa: E402
+from ampform.sympy._array_expressions import ArraySlice  # noqa: E402
+
+_wig = compute_wigner_angles(topology, momenta, 1)
+_W = compute_wigner_rotation_matrix(topology, momenta, 1)
+_wig_by = {str(k).split("_")[0]: v for k, v in _wig.items()}
+assert sorted(_wig_by) == ["alpha", "beta", "gamma"], list(_wig)
+
+
+def _entries(e):
+    repl = {}
+    for sl in e.atoms(ArraySlice):
+        parent, idx = sl.args
+        assert parent == _W, "compute_wigner_angles no longer slices compute_wigner_rotation_matrix"
+        first, i, j = idx
+        assert isinstance(first, sp.Tuple) and i.is_Integer and j.is_Integer and 1 <= i <= 3 and 1 <= j <= 3, idx
+        repl[sl] = sp.Symbol(f"m{int(i)}{int(j)}", real=True)
+    out = e.xreplace(repl)
+    assert all(str(x).startswith("m") for x in out.free_symbols), out
+    return out
+
+
+for _k in ("alpha", "beta", "gamma"):
+    defs_expr[f"wigner_{_k}"] = _entries(_wig_by[_k])
 # --- which angle feeds which D index: formulate_isobar_wigner_d on probe transitions -------------
 import reactions  # noqa: E402
 from ampform.helicity import formulate_isobar_wigner_d  # noqa: E402
@@ -218,6 +245,23 @@ def wigner_row_coq(row):
 
 
 rows = wigner_rows()
+
+# the D function of the axis-angle alignment receives the Wigner angles in the order (alpha, beta, gamma),
+# all three with the suffix of the rotated state (structural)
+from ampform.helicity.align.axisangle import formulate_wigner_rotation  # noqa: E402
+from sympy.physics.quantum.spin import WignerD  # noqa: E402
+
+_t = reactions.load("lc_pkpi_hel").transitions[0]
+_top = _t.topology
+(_topnode,) = [_top.edges[e].ending_node_id for e in _top.incoming_edge_ids]
+_low = sorted(e for e in _top.outgoing_edge_ids if _top.edges[e].originating_node_id != _topnode)[0]
+_rot = formulate_wigner_rotation(_t, _low, sp.Symbol("h"), sp.Symbol("mp"))
+_ds = list(_rot.atoms(WignerD))
+assert len(_ds) == 1, _ds
+_names = [str(a) for a in _ds[0].args[3:6]]
+assert [n.split("_")[0] for n in _names] == ["alpha", "beta", "gamma"], _names
+assert len({n.split("_", 1)[1] for n in _names}) == 1, _names
+assert str(_ds[0].args[1]) == "h" and str(_ds[0].args[2]) == "mp", _ds[0].args
 
 with open(out, "w") as f:
     f.write("(* GENERATED on every run from /repo by bridge/symgen_C04.py *)\n"
